@@ -49,6 +49,12 @@ Theorem C13_gate :
 Proof. exact (@gate_spec). Qed.
 Print Assumptions C13_gate.
 
+(* "an item without conditions always applies", for each of the three groups *)
+Theorem C13_no_conditions :
+  forall (C : Type) (ev : C -> outcome bool) (g : ngroup C), wf_ngroup g -> n_conds g = [] -> gate ev g = Ok true.
+Proof. exact (@empty_group_always). Qed.
+Print Assumptions C13_no_conditions.
+
 Theorem C13_rule_gate :
   forall it w b, wf_ngroup (i_rule it) -> (match_rule_conditions it w = Ok b <-> applies_rule it w = Ok b).
 Proof. exact rule_gate. Qed.
@@ -99,9 +105,25 @@ Theorem C13_history_fired :
 Proof. exact fired_spec. Qed.
 Print Assumptions C13_history_fired.
 
-(* FULL STATEMENT (false of the faithful model): for all items and states, one step of the model is
-   the step of the specification (every detection item / field name carries the effect iff the item
-   applies to it; histories are inherited).  Refuted twice: *)
+(* ---- the step: the transformation acts exactly where the item applies ----------------------
+   FULL STATEMENT (false of the faithful model): for all items and states, one step of the model
+   (ProcessingItem.apply: rule gate, then the transformation's loops over the fields list, the
+   detection items, their field references and fields, calling the gates, marking what was touched)
+   is the step of the specification sp_step: every target carries the effect iff the item applies to
+   it on the state before the item; applied sets grow by exactly the item's id on exactly the
+   targets that were changed; copies inherit history.
+   Proved part: items that do not gate a field-name transformation by the field-name condition
+   processing_item_applied, and have no 1:n mapping. *)
+Theorem C13_step_partial :
+  forall it T w w' b,
+    wf_ngroup (i_rule it) -> wf_ngroup (i_det it) -> wf_ngroup (i_field it) ->
+    tracking_safe it = true -> no_one_to_many it = true ->
+    step it w = Ok (w', b) ->
+    exists ws T', sp_step it T w = Ok (ws, b, T') /\ same_obs ws w'.
+Proof. exact step_meets_spec. Qed.
+Print Assumptions C13_step_partial.
+
+(* outside that domain the statement is refuted twice: *)
 (* a 1:n field name mapping makes copies that forget the items applied to the original *)
 Theorem C13_history_detitem_refuted :
   exists it1 it2 w w1 w2 w2' T1 T2,
